@@ -748,7 +748,7 @@ def make_cfg_without(inv_names):
 
 def validate(c, cfg, rows, name, timeout=600):
     """vlib.ctx.validate_trace with a metadir of its own (several validations run concurrently)"""
-    path = os.path.join(util.BUILD, "traces", name + ".ndjson")
+    path = os.path.join(util.TRACES, name + ".ndjson")
     util.write_ndjson(path, rows)
     res = c.tlc("ExtHandlerTrace", cfg, subdir="trace", workers=1, coverage=False, dfs_queue=True, env={"TRACE": path},
                 timeout=timeout, heap="2g", expect_ok=False,
